@@ -12,7 +12,7 @@
     containing every account involved ([Closed U run]: every account the interpreter writes). *)
 From Coq Require Import List ZArith NArith Bool.
 From Kardia Require Import Base.Int64 C09.Model C09.ProofsBase C09.ProofsVM C09.ProofsTx
-  C09.ProofsWrap C09.ProofsNonneg C09.ProofsExamples Generated.C09Facts.
+  C09.ProofsWrap C09.ProofsNonneg C09.ProofsExamples C09.ProofsExtra C09.ProofsFlow Generated.C09Facts.
 Import ListNotations.
 Local Open Scope Z_scope.
 
@@ -215,11 +215,255 @@ Proof.
 Qed.
 Print Assumptions C09_hypotheses_satisfiable.
 
+(** a transaction whose execution FAILED (out of gas, invalid opcode, REVERT, code above the size
+    limit, unaffordable code deposit, address collision) moves nothing but the gas money: the sender
+    pays used*price and its nonce goes up by one, the proposer receives used*price, every other
+    account keeps balance, nonce, code and storage, the value is not transferred, nothing is burnt,
+    no refund is granted, and unless the code executed REVERT the whole gas limit is used *)
+Theorem C09_failed_execution :
+  forall run ca, ExecOK run ->
+  forall e s pool m s' pool' r,
+    wf_msg m -> 0 <= pool < two64 -> st_refund s = 0 -> st_dead s = [] ->
+    apply_transaction64 run ca e s pool m = Executed s' pool' r ->
+    x_vmerr r <> VOk ->
+    x_failed r = true /\ x_refund r = 0 /\ x_burnt r = 0 /\ x_used r = m_gas m - x_vmleft r /\
+    (x_vmerr r <> VRevert -> x_vmleft r = 0 /\ x_used r = m_gas m) /\
+    forall a,
+      bal s' a = bal s a - (if N.eqb a (m_from m) then x_used r * m_price m else 0)
+                         + (if N.eqb a (e_coinbase e) then x_used r * m_price m else 0) /\
+      nonce s' a = nonce s a + (if N.eqb a (m_from m) then 1 else 0) /\
+      code s' a = code s a /\ stor s' a = stor s a.
+Proof. exact executed_failed. Qed.
+Print Assumptions C09_failed_execution.
+
+(** KVM.create as a function of what the interpreter returned (balance and collision checks
+    passed): code above MaxCodeSize -> ErrMaxCodeSizeExceeded, deposit of 200 gas per byte not
+    affordable -> ErrCodeStoreOutOfGas, both with all gas burnt and the state back at the
+    snapshot; REVERT keeps the gas; success stores the code and charges the deposit.  The harness
+    re-implements exactly this table (oracle create-outcome-differs-from-specification). *)
+Theorem C09_create_outcome :
+  forall run s mid origin caller address gas value,
+    can_transfer s caller value = true ->
+    nonce (cr_s0 wrapu64 s caller) address = 0 -> code (cr_s0 wrapu64 s caller) address = 0%N ->
+    let s0 := cr_s0 wrapu64 s caller in
+    let s3 := cr_s3 wrapu64 s caller address value in
+    let o := run s3 (create_ci mid origin caller address gas value) in
+    let cdg := wrapu64 (ro_retlen o * create_data_gas) in
+    create wrapu64 run s mid origin caller address gas value =
+      match ro_err o with
+      | VOk => if max_code_size <? ro_retlen o then (s0, 0, VMaxCode, 0)
+               else if cdg <=? ro_gas o
+                    then (set_code (apply_writes s3 o) address (ro_retcode o), ro_gas o - cdg, VOk, ro_burn o)
+                    else (s0, 0, VCodeStore, 0)
+      | VRevert => (s0, ro_gas o, VRevert, 0)
+      | e => (s0, 0, e, 0)
+      end.
+Proof. intros run. exact (create_outcome run wrapu64). Qed.
+Print Assumptions C09_create_outcome.
+
+(** what ApplyTransaction leaves behind when it returns an error: nothing for the reasons checked
+    before buyGas; for ErrGasUintOverflow / ErrIntrinsicGas / ErrInsufficientFundsForTransfer the
+    sender is out of gas*price and the pool is short of the gas limit — every caller must restore
+    both (commitBlock: 5c78105, proposal builder: e9e909b).  No hypothesis on the interpreter. *)
+Theorem C09_rejected_residue :
+  forall run ca e s pool m er sx px,
+    apply_transaction64 run ca e s pool m = Rejected er sx px ->
+    if after_buy_gas er
+    then sx = sub_bal s (m_from m) (m_gas m * m_price m) /\ px = pool - m_gas m
+         /\ m_gas m * m_price m <= bal s (m_from m) /\ m_gas m <= pool
+    else sx = s /\ px = pool.
+Proof. exact rejected_residue. Qed.
+Print Assumptions C09_rejected_residue.
+
+(** the proposal builder (proposalBlock.commitTransaction in a loop, block_constructor.go) computes
+    what commitBlock's loop computes on the same transactions: same accounts, same pool, same gas
+    used, same receipts — so every block theorem above holds for the block it builds, and a
+    transaction it rejects is neutral for it as well *)
+Theorem C09_proposal_builder :
+  forall run ca e s txs,
+    propose_txs wrapu64 run ca e (block_start e s) txs = commit_block64 run ca e s txs.
+Proof. intros run ca e s txs. exact (propose_txs_eq run ca wrapu64 e txs (block_start e s)). Qed.
+Print Assumptions C09_proposal_builder.
+
+(** StateProcessor.Process (first error aborts): it succeeds exactly when no transaction of the
+    block is rejected, and then it computes what commitBlock's loop computes *)
+Theorem C09_process :
+  forall run ca e s txs,
+    match process_block64 run ca e s txs with
+    | Some b => b = commit_block64 run ca e s txs
+    | None => exists txs1 bad txs2 er sx px,
+                txs = txs1 ++ bad :: txs2 /\
+                apply_transaction64 run ca e (b_state (commit_block64 run ca e s txs1))
+                  (b_pool (commit_block64 run ca e s txs1)) bad = Rejected er sx px
+    end.
+Proof.
+  intros run ca e s txs. unfold process_block64, process_block.
+  destruct (process_txs wrapu64 run ca e (Some (block_start e s)) txs) as [b|] eqn:H.
+  - symmetry. exact (process_txs_some run ca wrapu64 e txs _ _ H).
+  - exact (process_txs_fails run ca wrapu64 e txs _ H).
+Qed.
+Print Assumptions C09_process.
+
+Theorem C09_process_complete :
+  forall run ca e s txs,
+    (forall txs1 m txs2, txs = txs1 ++ m :: txs2 ->
+       forall er sx px, apply_transaction64 run ca e (b_state (commit_block64 run ca e s txs1))
+                          (b_pool (commit_block64 run ca e s txs1)) m <> Rejected er sx px) ->
+    process_block64 run ca e s txs = Some (commit_block64 run ca e s txs).
+Proof. intros run ca e s txs. exact (process_txs_complete run ca wrapu64 e txs (block_start e s)). Qed.
+Print Assumptions C09_process_complete.
+
+(** an executed transaction whose execution SUCCEEDED, account by account: there are the
+    interpreter's writes [ws] ([] when the target has no code) and the accounts [dead] that
+    self-destructed, such that every other account holds what it held before, minus
+    value + used*price for the sender, plus the value for the recipient / the created contract,
+    plus used*price for the proposer, plus what [ws] moves to or from it; the accounts in [dead] are
+    deleted; [ws] as a whole moves nothing but the self-destruct burn; the sender is not destructed.
+    Together with C09_failed_execution and C09_plain_transfer this carries the first sentence of
+    the property for every account, not only for the sum. *)
+Theorem C09_value_flow :
+  forall run ca, ExecOK run ->
+  forall e s pool m s' pool' r,
+    wf_msg m -> 0 <= pool < two64 -> st_refund s = 0 -> st_dead s = [] ->
+    apply_transaction64 run ca e s pool m = Executed s' pool' r ->
+    x_vmerr r = VOk ->
+    exists ws dead,
+      (forall U, Closed U run -> (forall w, In w ws -> In (w_addr w) U) /\ (forall a, In a dead -> In a U)) /\
+      0 <= - sum_dbal ws /\ ~ In (m_from m) dead /\
+      (forall a, ~ In a dead ->
+         bal s' a = bal s a
+                    - (if N.eqb a (m_from m) then m_value m + x_used r * m_price m else 0)
+                    + (if N.eqb a (target ca s m) then m_value m else 0)
+                    + (if N.eqb a (e_coinbase e) then x_used r * m_price m else 0)
+                    + dbal_of ws a) /\
+      (forall a, In a dead -> get s' a = empty_account).
+Proof. exact executed_ok_flow. Qed.
+Print Assumptions C09_value_flow.
+
+(** the per-account moves of a list of writes add up to its total move over any duplicate-free
+    universe that contains the written accounts *)
+Theorem C09_writes_sum :
+  forall U ws, NoDup U -> (forall w, In w ws -> In (w_addr w) U) -> dbal_total ws U = sum_dbal ws.
+Proof. exact dbal_of_total. Qed.
+Print Assumptions C09_writes_sum.
+
+(** the hypothesis [Closed U run] of C09_conservation / C09_block is no restriction on the
+    interpreter: [restrict U run] (a run that writes outside [U] is reported as a failed run) keeps
+    the contract, is closed by construction, and IS [run] on every run that stays inside [U] *)
+Theorem C09_closed_universe_wlog :
+  forall U run, ExecOK run ->
+    ExecOK (restrict U run) /\ Closed U (restrict U run) /\
+    forall s ci, (forall w, In w (ro_writes (run s ci)) -> In (w_addr w) U) -> restrict U run s ci = run s ci.
+Proof.
+  intros U run OK. split; [exact (restrict_exec_ok U run OK)|]. split; [exact (restrict_closed U run)|].
+  exact (restrict_same U run).
+Qed.
+Print Assumptions C09_closed_universe_wlog.
+
+(** hence conservation for whole blocks with the contract [ExecOK] as the ONLY assumption on the
+    interpreter *)
+Theorem C09_block_restricted :
+  forall run ca, ExecOK run ->
+  forall e U s txs,
+    0 <= e_gaslimit e < two64 -> NoDup U -> In (e_coinbase e) U ->
+    st_refund s = 0 -> st_dead s = [] ->
+    (forall m, In m txs -> wf_msg m /\ In (m_from m) U /\ forall s, In (target ca s m) U) ->
+    block_inv e U s (commit_block64 (restrict U run) ca e s txs).
+Proof.
+  intros run ca OK e U s txs Hgl Hnd Hc Hr Hd Hall.
+  exact (C09_block (restrict U run) ca (restrict_exec_ok U run OK) e U s txs Hgl Hnd (restrict_closed U run) Hc Hr Hd Hall).
+Qed.
+Print Assumptions C09_block_restricted.
+
+(** the early exit of the proposal builder (pool below TxGas: "not enough gas for further
+    transactions") changes nothing: every transaction it skips would have been rejected, because the
+    intrinsic gas of any transaction is at least TxGas (no uint64 wrap-around gets below it) *)
+Theorem C09_proposal_break_sound :
+  forall run ca e b txs,
+    (forall m, In m txs -> 0 <= m_gas m < two64) ->
+    propose_loop wrapu64 run ca e b txs = propose_txs wrapu64 run ca e b txs.
+Proof. intros run ca e b txs. exact (propose_loop_eq run ca e txs b). Qed.
+Print Assumptions C09_proposal_break_sound.
+
+Theorem C09_intrinsic_at_least_tx_gas :
+  forall d c l ig, intrinsic_gas64 d c l = Some ig -> tx_gas <= ig.
+Proof. exact intrinsic_ge_tx_gas. Qed.
+Print Assumptions C09_intrinsic_at_least_tx_gas.
+
 (** Tie to the Go SOURCE (translator /verif/go2coq, regenerated from /repo on every check): the nonce,
     funds, block-gas, intrinsic-gas, transfer, refund-cap and pool-overflow guards and the uint64 gas
     arithmetic of the model are the expressions of state_processor.go / tx_pool_utils.go /
-    gas_pool.go / lib/math themselves (statement spelled out in SourceTie.v). *)
+    gas_pool.go / lib/math themselves; second part: what buyGas / preCheck / refundGas store and
+    re-read, the cumulative gas of ApplyTransaction, the pool restored by commitBlock and by the
+    proposal builder (= the pool of [commit_step] / [propose_step] after a rejected transaction), the
+    error tests of the three loops, KVM.Call / create: depth and NoRecursion tests (cannot fire at
+    depth 0), balance tests (= [can_transfer]), absent-account and empty-code tests, collision test,
+    code size limit, code deposit charge and Contract.UseGas (= the model's decisions in [create]),
+    gas 0 on failure, the stipend / returned gas / 63-64ths arithmetic of the call-family
+    instructions, the protocol constants (statement spelled out in SourceTie.v). *)
 From Kardia Require Import C09.SourceTie.
 Theorem C09_source_tie : C09_source_tie_statement.
 Proof. exact C09_source_tie_proof. Qed.
 Print Assumptions C09_source_tie.
+
+(** The contract ExecOK is not an open assumption for the reference interpreter of C10
+    (coq/theories/C10/EVM.v, compared instruction by instruction with the real KVM by ./check C10):
+    [ToC09.run10] wraps it as C09's [run] (for every Keccak / block-hash function, every
+    concretisation of code and storage identities, call data and block environment) and
+    [run10_exec_ok] proves the contract.  The theorems above then hold for it with NO hypothesis
+    on the interpreter: *)
+From Kardia Require C10.EVM C10.ToC09.
+Theorem C09_interpreter_contract :
+  forall keccak blockhash UW code_of_id stor_of_id id_of_code id_of_stor input_of env_of,
+    ExecOK (Kardia.C10.ToC09.run10 keccak blockhash UW code_of_id stor_of_id id_of_code id_of_stor input_of env_of).
+Proof. exact Kardia.C10.ToC09.run10_exec_ok. Qed.
+Print Assumptions C09_interpreter_contract.
+
+(** one transaction run by the reference interpreter: gas bounds, pool, nonce, and (success path)
+    the account-level value flow / (failure path) nothing but the gas money *)
+Theorem C09_interpreter_transaction :
+  forall keccak blockhash UW code_of_id stor_of_id id_of_code id_of_stor input_of env_of ca,
+  let run := Kardia.C10.ToC09.run10 keccak blockhash UW code_of_id stor_of_id id_of_code id_of_stor input_of env_of in
+  forall e s pool m s' pool' r,
+    wf_msg m -> 0 <= pool < two64 -> st_refund s = 0 -> st_dead s = [] ->
+    apply_transaction64 run ca e s pool m = Executed s' pool' r ->
+    (0 <= x_used r <= m_gas m /\ 0 <= x_refund r /\ 2 * x_refund r <= x_used r + x_refund r) /\
+    (pool' = pool - x_used r /\ 0 <= pool' < two64) /\
+    (nonce s' (m_from m) = nonce s (m_from m) + 1 /\ nonce s (m_from m) = m_nonce m) /\
+    (x_vmerr r <> VOk ->
+       x_burnt r = 0 /\ (x_vmerr r <> VRevert -> x_used r = m_gas m) /\
+       forall a, bal s' a = bal s a - (if N.eqb a (m_from m) then x_used r * m_price m else 0)
+                                    + (if N.eqb a (e_coinbase e) then x_used r * m_price m else 0)).
+Proof.
+  intros keccak blockhash UW code_of_id stor_of_id id_of_code id_of_stor input_of env_of ca run
+         e s pool m s' pool' r Hm Hp Hr Hd Hex.
+  pose proof (Kardia.C10.ToC09.run10_exec_ok keccak blockhash UW code_of_id stor_of_id id_of_code id_of_stor input_of env_of) as OK.
+  fold run in OK.
+  destruct (C09_gas_bounds run ca OK e s pool m s' pool' r Hm Hp Hr Hex) as (G1 & G2 & G3 & _).
+  split; [repeat split; tauto|].
+  split; [exact (C09_pool_exact run ca OK e s pool m s' pool' r Hm Hp Hr Hex)|].
+  split; [exact (C09_nonce run ca OK e s pool m s' pool' r Hm Hp Hr Hd Hex)|].
+  intros Hne.
+  destruct (C09_failed_execution run ca OK e s pool m s' pool' r Hm Hp Hr Hd Hex Hne) as (_ & _ & Hb & _ & Hu & Hacc).
+  split; [exact Hb|]. split; [intros Hnr; exact (proj2 (Hu Hnr))|].
+  intros a. exact (proj1 (Hacc a)).
+Qed.
+Print Assumptions C09_interpreter_transaction.
+
+(** whole blocks run by the reference interpreter (restricted to the universe [U] the balance sum
+    ranges over, see C09_closed_universe_wlog): AddGas never panics, pool + gas used = block gas
+    limit, the state is again at a transaction boundary, the balance sum moved by the burns only *)
+Theorem C09_interpreter_block :
+  forall keccak blockhash UW code_of_id stor_of_id id_of_code id_of_stor input_of env_of ca,
+  let run := Kardia.C10.ToC09.run10 keccak blockhash UW code_of_id stor_of_id id_of_code id_of_stor input_of env_of in
+  forall e U s txs,
+    0 <= e_gaslimit e < two64 -> NoDup U -> In (e_coinbase e) U ->
+    st_refund s = 0 -> st_dead s = [] ->
+    (forall m, In m txs -> wf_msg m /\ In (m_from m) U /\ forall s, In (target ca s m) U) ->
+    block_inv e U s (commit_block64 (restrict U run) ca e s txs).
+Proof.
+  intros keccak blockhash UW code_of_id stor_of_id id_of_code id_of_stor input_of env_of ca run.
+  exact (C09_block_restricted run ca
+           (Kardia.C10.ToC09.run10_exec_ok keccak blockhash UW code_of_id stor_of_id id_of_code id_of_stor input_of env_of)).
+Qed.
+Print Assumptions C09_interpreter_block.
